@@ -52,7 +52,7 @@ PROGRAMS = [
     ["mux", [["naive", "last"], ["poly", 1]], 0],
     ["grid", ["naive", "last"], {"strategy": ["last", "mean"]}],
 ]
-DATA_FAULTS = ["unsorted", "empty", "dataframe", "ndarray", "list", "x_index", "x_shorter",
+DATA_FAULTS = ["unsorted", "reversed_range", "empty", "dataframe", "ndarray", "list", "x_index", "x_shorter",
                "x_longer", "x_longer_front"]
 FH_FAULTS = ["dup", "dup_index", "dup_array", "dup_range", "empty", "frac", "frac_array", "str",
              "dict", "set", "series", "missing"]
@@ -87,6 +87,11 @@ def _bad_y(y, fault):
         idx = list(y.index)
         idx[1], idx[2] = idx[2], idx[1]
         return pd.Series(y.values, index=pd.Index(idx, dtype="int64"))
+    if fault == "reversed_range":
+        # descending RangeIndex: "a RangeIndex is ordered" does not hold for a negative step
+        out = pd.Series(y.values, index=pd.RangeIndex(int(y.index[-1]), int(y.index[0]) - 1, -1))
+        assert isinstance(out.index, pd.RangeIndex)
+        return out
     if fault == "empty":
         return y.iloc[:0]
     if fault == "dataframe":
@@ -112,8 +117,12 @@ def gen_cases(tier, seed):
             for fhi in range(len(FHS)):
                 for fault in DATA_FAULTS:
                     yield dict(entry="fit", prog=pi, fault=fault, ctx=ci, fh=fhi)
-                    if fault in ("unsorted", "dataframe", "ndarray", "list"):
+                    if fault in ("unsorted", "reversed_range", "dataframe", "ndarray", "list"):
                         yield dict(entry="update", prog=pi, fault=fault, ctx=ci, fh=fhi)
+                # valid exogenous data whose index has the same time points but is another object
+                # (other Index class / name): must be ACCEPTED
+                for v in ("x_equal_class", "x_equal_name"):
+                    yield dict(entry="valid", prog=pi, fault=v, ctx=ci, fh=fhi)
                 for fault in FH_FAULTS + ["different"]:
                     yield dict(entry="horizon", prog=pi, fault=fault, ctx=ci, fh=fhi)
     for ci in ctxs:
@@ -137,7 +146,7 @@ def gen_cases(tier, seed):
                 for fault in ("dup", "dup_index", "dup_array", "frac", "frac_array", "str",
                               "dict", "set", "series", "empty"):
                     yield dict(entry="splitter", splitter=sp, which="fh:" + fault, ctx=ci, fh=fhi)
-                for fault in ("unsorted", "empty"):
+                for fault in ("unsorted", "reversed_range", "empty"):
                     yield dict(entry="splitter", splitter=sp, which="y:" + fault, ctx=ci, fh=fhi)
             for which in ["naive:window", "naive:sp", "red:window"]:
                 for bi in range(len(BAD_INT)):
@@ -153,8 +162,9 @@ def gen_cases(tier, seed):
                     if fault == "wronglast" and comp != "ttf":
                         continue
                     yield dict(entry="composite", comp=comp, fault=fault, ctx=ci, fh=fhi)
-            for which in ("y:unsorted", "y:empty", "y:dataframe", "y:ndarray", "cv:int", "cv:kfold",
-                          "strategy", "scoring", "x_index", "x_longer"):
+            for which in ("y:unsorted", "y:reversed_range", "y:empty", "y:dataframe", "y:ndarray",
+                          "cv:int", "cv:kfold", "strategy", "scoring", "x_index", "x_longer",
+                          "valid:x_equal_class", "valid:x_equal_name"):
                 yield dict(entry="evaluate", which=which, ctx=ci, fh=fhi)
             for which in ("y:unsorted", "y:dataframe", "y:ndarray", "cv:int", "grid:scalar",
                           "grid:emptylist", "grid:unknownparam"):
@@ -197,7 +207,9 @@ def run_case(case):
     fh = FHS[case["fh"]]
     y = _y(ctx)
     nt = tuple(sorted((k, str(v)) for k, v in case.items()))
-    if e in ("fit", "update", "horizon"):
+    if e == "valid":
+        _valid_cell(res, case, y, fh, nt)
+    elif e in ("fit", "update", "horizon"):
         _forecaster_cell(res, case, y, fh, nt)
     elif e == "splitter":
         _splitter_cell(res, case, y, fh, nt)
@@ -212,6 +224,34 @@ def run_case(case):
     else:
         _tts_cell(res, case, y, fh, nt)
     return res
+
+
+def _X_equal(y, how):
+    """exogenous frame with the same time points as y in a separately built index"""
+    if how == "x_equal_class":
+        idx = pd.Index(np.arange(int(y.index[0]), int(y.index[-1]) + 1), dtype="int64") \
+            if isinstance(y.index, pd.RangeIndex) else \
+            pd.RangeIndex(int(y.index[0]), int(y.index[-1]) + 1)
+    else:
+        idx = y.index.copy()
+        idx.name = "time"
+    assert idx.equals(y.index)
+    return pd.DataFrame({"x": 10000.0 + np.arange(len(y))}, index=idx)
+
+
+def _valid_cell(res, case, y, fh, nt):
+    spec = PROGRAMS[case["prog"]]
+    if not (spec[0] in ("naive", "red") and spec[1] != "dirrec"):
+        return
+    req = fmenu.needs_fh_at_fit(spec)
+    X = _X_equal(y, case["fault"])
+    o = call(lambda: fmenu.build(spec).fit(y.copy(), X, fh=fh if req else None))
+    key = "%s:valid:%s" % (_tag(spec), case["fault"])
+    res.outcome("valid:" + o.kind)
+    res.nt(nt)
+    if not o.ok:
+        res.violate(key + ":rejected", "valid exogenous data (same time points as the target, "
+                    "index built separately) is rejected", observed=o.brief())
 
 
 def _tag(spec):
@@ -509,6 +549,15 @@ def _evaluate_cell(res, case, y, fh, nt):
         bkw["strategy"] = "foo"
     elif which == "scoring":
         bkw["scoring"] = "mape"
+    elif which.startswith("valid:"):
+        kw["X"] = _X_equal(y, which[6:])
+        o = call(lambda: evaluate(**kw))
+        res.outcome("valid:" + o.kind)
+        res.nt(nt)
+        if not o.ok:
+            res.violate(key + ":rejected", "valid exogenous data (equal time points, separately "
+                        "built index) is rejected", observed=o.brief())
+        return
     else:
         kw["X"] = _X(y)
         Xb = _X(y)
